@@ -7,12 +7,10 @@ Transcribes `/repo/src/expression_engine/lexer.rs`:
 
 Characters are Unicode scalar values as `Nat` (kernel friendly).  The lexer state of the Rust code
 is `(text : Vec<char>, pos)`; here it is the *remaining* input `text[pos..]`.  `next_char` on an
-exhausted input returns NUL without advancing; `push_back` un-reads the character just read.  The
-one place where the Rust code calls `push_back` after `next_char` hit the end of input (so that
-`pos` moves back onto the *previous* character) is `read_operator`: for `<`, `>`, `=`, `!`, `?` as
-the very last character the operator character itself is re-queued.  That quirk is transcribed
-(`readOperator`, case `[]`): the remaining input afterwards is `[first]` again, so the token
-stream never ends (the parser model reports `livelock`).
+exhausted input returns NUL without advancing; `push_back` un-reads the character just read.
+`read_operator` does not un-read when `next_char` hit the end of the input (repaired: it used to
+move `pos` back onto the operator character itself, so that `<`, `>`, `=`, `!` as the very last
+character were delivered for ever): `readOperator`, case `[]`, leaves the empty input.
 
 Core Lean only.
 -/
@@ -139,10 +137,13 @@ def readOperator (first : Ch) (rest : Str) : Token × Str :=
   else
     match rest with
     | [] =>
-      -- `next_char` returned NUL without advancing; `push_back` moves onto `first` again
-      opSingle first [first]
+      -- `next_char` returned NUL without advancing; no `push_back` then (`!has_next()`)
+      opSingle first []
     | second :: r =>
-      if second == 61 then opDouble first r else opSingle first (second :: r)
+      if second == 61 then opDouble first r
+      -- `second != '\0' || self.has_next()`: a NUL character that ends the text is not un-read
+      else if second == 0 && r.isEmpty then opSingle first []
+      else opSingle first (second :: r)
 
 /-! ### numbers -/
 
@@ -199,7 +200,7 @@ def readNumber : Nat → Str → Str → Token × Str
       else brk
     else if c == 69 || c == 101 then
       if state == 1 || state == 2 then readNumber 3 rest (c :: acc)
-      else if state == 5 then (.operator .minus, rest)   -- the `e` is swallowed (no push_back)
+      else if state == 5 then (.operator .minus, c :: rest)   -- `-e`: the letter is un-read
       else brk
     else if c == 0 then (finishNumber state acc.reverse, rest)   -- a real NUL is not pushed back
     else brk
